@@ -344,7 +344,11 @@ private:
 
     JSONCONS_VISITOR_RETURN_TYPE visit_end_object(const ser_context&, std::error_code& ec) final
     {
-        JSONCONS_ASSERT(!stack_.empty());
+        if (stack_.empty()) // a value outside any row: the input is not a table
+        {
+            ec = csv_errc::source_error;
+            JSONCONS_VISITOR_RETURN;
+        }
 
         switch (stack_.back().item_kind_)
         {
@@ -626,7 +630,11 @@ private:
 
     JSONCONS_VISITOR_RETURN_TYPE visit_end_array(const ser_context&, std::error_code& ec) final
     {
-        JSONCONS_ASSERT(!stack_.empty());
+        if (stack_.empty()) // a value outside any row: the input is not a table
+        {
+            ec = csv_errc::source_error;
+            JSONCONS_VISITOR_RETURN;
+        }
         
         switch (stack_.back().item_kind_)
         {
@@ -756,9 +764,13 @@ private:
         JSONCONS_VISITOR_RETURN;
     }
 
-    JSONCONS_VISITOR_RETURN_TYPE visit_key(const string_view_type& name, const ser_context&, std::error_code&) final
+    JSONCONS_VISITOR_RETURN_TYPE visit_key(const string_view_type& name, const ser_context&, std::error_code& ec) final
     {
-        JSONCONS_ASSERT(!stack_.empty());
+        if (stack_.empty()) // a value outside any row: the input is not a table
+        {
+            ec = csv_errc::source_error;
+            JSONCONS_VISITOR_RETURN;
+        }
         switch (stack_.back().item_kind_)
         {
             case stack_item_kind::flat_object:
@@ -824,9 +836,13 @@ private:
         }
     }
 
-    JSONCONS_VISITOR_RETURN_TYPE visit_null(semantic_tag, const ser_context&, std::error_code&) final
+    JSONCONS_VISITOR_RETURN_TYPE visit_null(semantic_tag, const ser_context&, std::error_code& ec) final
     {
-        JSONCONS_ASSERT(!stack_.empty());
+        if (stack_.empty()) // a value outside any row: the input is not a table
+        {
+            ec = csv_errc::source_error;
+            JSONCONS_VISITOR_RETURN;
+        }
         switch (stack_.back().item_kind_)
         {
             case stack_item_kind::flat_object:
@@ -894,9 +910,13 @@ private:
         JSONCONS_VISITOR_RETURN;
     }
 
-    JSONCONS_VISITOR_RETURN_TYPE visit_string(const string_view_type& sv, semantic_tag, const ser_context&, std::error_code&) final
+    JSONCONS_VISITOR_RETURN_TYPE visit_string(const string_view_type& sv, semantic_tag, const ser_context&, std::error_code& ec) final
     {
-        JSONCONS_ASSERT(!stack_.empty());
+        if (stack_.empty()) // a value outside any row: the input is not a table
+        {
+            ec = csv_errc::source_error;
+            JSONCONS_VISITOR_RETURN;
+        }
         switch (stack_.back().item_kind_)
         {
             case stack_item_kind::flat_object:
@@ -970,7 +990,11 @@ private:
                               const ser_context& context,
                               std::error_code& ec) final
     {
-        JSONCONS_ASSERT(!stack_.empty());
+        if (stack_.empty()) // a value outside any row: the input is not a table
+        {
+            ec = csv_errc::source_error;
+            JSONCONS_VISITOR_RETURN;
+        }
 
         byte_string_chars_format encoding_hint;
         switch (tag)
@@ -1025,7 +1049,11 @@ private:
                          const ser_context& context,
                          std::error_code& ec) final
     {
-        JSONCONS_ASSERT(!stack_.empty());
+        if (stack_.empty()) // a value outside any row: the input is not a table
+        {
+            ec = csv_errc::source_error;
+            JSONCONS_VISITOR_RETURN;
+        }
         switch (stack_.back().item_kind_)
         {
             case stack_item_kind::flat_object:
@@ -1100,9 +1128,13 @@ private:
     JSONCONS_VISITOR_RETURN_TYPE visit_int64(int64_t val, 
                         semantic_tag, 
                         const ser_context&,
-                        std::error_code&) final
+                        std::error_code& ec) final
     {
-        JSONCONS_ASSERT(!stack_.empty());
+        if (stack_.empty()) // a value outside any row: the input is not a table
+        {
+            ec = csv_errc::source_error;
+            JSONCONS_VISITOR_RETURN;
+        }
         switch (stack_.back().item_kind_)
         {
             case stack_item_kind::flat_object:
@@ -1173,9 +1205,13 @@ private:
     JSONCONS_VISITOR_RETURN_TYPE visit_uint64(uint64_t val, 
                       semantic_tag, 
                       const ser_context&,
-                      std::error_code&) final
+                      std::error_code& ec) final
     {
-        JSONCONS_ASSERT(!stack_.empty());
+        if (stack_.empty()) // a value outside any row: the input is not a table
+        {
+            ec = csv_errc::source_error;
+            JSONCONS_VISITOR_RETURN;
+        }
         switch (stack_.back().item_kind_)
         {
             case stack_item_kind::flat_object:
@@ -1243,9 +1279,13 @@ private:
         JSONCONS_VISITOR_RETURN;
     }
 
-    JSONCONS_VISITOR_RETURN_TYPE visit_bool(bool val, semantic_tag, const ser_context&, std::error_code&) final
+    JSONCONS_VISITOR_RETURN_TYPE visit_bool(bool val, semantic_tag, const ser_context&, std::error_code& ec) final
     {
-        JSONCONS_ASSERT(!stack_.empty());
+        if (stack_.empty()) // a value outside any row: the input is not a table
+        {
+            ec = csv_errc::source_error;
+            JSONCONS_VISITOR_RETURN;
+        }
         switch (stack_.back().item_kind_)
         {
             case stack_item_kind::flat_object:
